@@ -13,6 +13,30 @@ EXPECT = {  # subject prefix -> checks expected to fire when the fix is undone
     'eigenvector pullback of eigh': ['C03'], 'pullback of tan no longer': ['C06', 'C14'], 'x *= y when y is x': ['C14'], 'resets the eigenvector buffer': ['C08'], 'promote every integer seed': ['C09'], 'CGraph.gradient evaluates integer': ['C04'], 'UTPM.vecsym allocates': ['C17'], 'minimum/maximum of traced values': ['C10'], 'pullback of prod accumulates': ['C03'], 'expit of large arguments': ['C01'], 'constant array c is a view of x': ['C14'], 'constant b of mixed real/complex dtype': ['C07'], 'zero-dimensional integer array as exponent': ['C01'], 'forwards the rank threshold': ['C08'], 'in-place write with a constant array': ['C03'], 'pullback of symvec with UPLO': ['C03'], 'right hand side is broadcast': ['C03', 'C04'], 'promotes a NumPy scalar base': ['C02'], 'integer-typed matrices compute in floating point': ['C07'], 'keep the imaginary part of complex adjoints': ['C03'], 'imag() of a traced complex value': ['C03'], 'accepts a complex y for a real x': ['C03'], 'integer-typed points are computed in floating point': ['C16'], 'allocate their result with the length n': ['C13'], 'a view of x': ['C13'], 'x ** 2.0 is the polynomial': ['C02'], 'conversion helpers keep complex': ['C17'], 'zeros and ones accept a dtype given as a string': ['C10'], 'select instead of blending': ['C10'], 'extract_jac_vec for scalar': ['C09'], 'overlaps the target or has leading unit axes': ['C03'], 'share adjoint memory are accumulated': ['C03'], 'pullbacks of trace of a non-square matrix': ['C03'], 'recorded with Python lists': ['C04'], 'outer and the LU based functions accept': ['C07'], 'extract_tensor contracts the direction axis': ['C09'], 'shift(s, out=buffer) clears': ['C17'], 'b ** z and x ** z with a complex polynomial': ['C02'], 'minimum and maximum promote mixed operand types': ['C10'], 'derivative terms of the special functions': ['C12'], 'ndarray2utpm keeps complex elements': ['C17'], 'nthderiv accepts a NumPy integer order': ['C16'], 'zeros, ones and reshape accept the shape': ['C13', 'C10'],
     'absolute value of complex Taylor polynomials': ['C01', 'C03'],
     'reshape converts the shape before': ['C13'],
+    'shift(0) is the identity': ['C17'],
+    'absolute of a complex polynomial does not overflow': ['C01'],
+    'pullback of outer with a constant operand': ['C03', 'C04'],
+    'pullbacks of fft and ifft with n different from': ['C03', 'C04'],
+    'vec_hess_vec accepts multipliers of length M': ['C04'],
+    'gradient evaluates the graph on a copy of the point': ['C14'],
+    'pullback of solve with a constant matrix or a complex constant': ['C03', 'C04'],
+    'abs() of a traced value': ['C03', 'C05'],
+    'ndarray2utpm for containers with several axes': ['C17'],
+    'item assignment rejects a right hand side that does not fit': ['C13'],
+    'extract_tensor returns the full derivative tensor for every order': ['C09'],
+    'init_jac_vec at a scalar point': ['C09'],
+    'logdet of a matrix with negative determinant': ['C07'],
+    'x ** r with an array r of more axes than x': ['C11'],
+    'quotient and power of polynomials of different precision': ['C02'],
+    'a polynomial constant on the left of a traced value': ['C05', 'C03'],
+    'the generic dispatchers let a traced argument decide': ['C05'],
+    'minimum and maximum with a constant or a broadcastable operand': ['C01'],
+    'comparisons of polynomials whose values have different ranks': ['C10'],
+    'sign of a complex polynomial': ['C01'],
+    'x *= y with one direction in y and several in x': ['C02', 'C14'],
+    'sum over a tuple of axes': ['C13'],
+    'JTtoF keeps complex coefficients': ['C17'],
+    'combine_blocks accepts the list of lists': ['C17'],
 }
 
 
